@@ -16,6 +16,16 @@ def classify_prefix(cdc, data, k, spec):
     s = streams.Growing(); s.arrive(data[:k]); s.close_input()
     ev, o = streams.drive(I.DEC[cdc], s, [('poll',)], spec=spec)
     out['closed'] = ('objects:' if any(not isinstance(e, str) for e in ev) else '') + (o if isinstance(o, str) else o[1])
+    # open while polled once or twice, THEN closed (seekable and non-seekable, i.e. behind the library's caching wrapper):
+    # underrun while open, end-of-stream after the close
+    for seekable in (True, False):
+        for npoll in (1, 2):
+            s = streams.Growing(seekable=seekable); s.arrive(data[:k])
+            ev, o = streams.drive(I.DEC[cdc], s, [('poll',)] * npoll + [('close',), ('poll',), ('poll',)], spec=spec)
+            key = 'polled-then-closed:%s:%d' % ('seekable' if seekable else 'non-seekable', npoll)
+            if any(not isinstance(e, str) for e in ev): out[key] = 'objects'
+            elif o == 'exhausted': out[key] = 'under-for-ever'
+            else: out[key] = o if isinstance(o, str) else o[1]
     # the same two on a BytesIO-derived non-blocking stream (the library treats BytesIO objects specially)
     ev, o = streams.drive_feed(I.DEC[cdc], data[:k], [k], spec=spec, close=False, polls=(0,))
     out['open-bytesio'] = ('objects' if any(not isinstance(e, str) for e in ev) else 'under') if o == 'exhausted' else (o if o == 'stop' else o[1])
@@ -26,7 +36,7 @@ def classify_prefix(cdc, data, k, spec):
 
 def run(ctx):
     ctx.rule = ('every proper prefix e[:k] of valid BER (definite/indefinite/chunked), CER and DER encodings, presented as bytes (one-shot), '
-                'as an open non-blocking stream and as a stream closed after byte k, each both as a plain stream object and as an io.BytesIO subclass; with and without guiding type; besides random types, one encoding of every base kind (every simple, string, time and container type), plain and under an EXPLICIT tag, per codec, cut at every octet; non-trivial = k > 0')
+                'as an open non-blocking stream, as a stream closed after byte k and as one polled once or twice while open and closed afterwards (seekable and non-seekable), each both as a plain stream object and as an io.BytesIO subclass; with and without guiding type; besides random types, one encoding of every base kind (every simple, string, time and container type), plain and under an EXPLICIT tag, per codec, cut at every octet; non-trivial = k > 0')
     search_only = getattr(ctx, 'search_only', False)
     exprs, meta = [], []
     sts = [s for s in gen_streams(ctx, ctx.n(60, 600)) if len(s[2]) == 1]
@@ -59,6 +69,10 @@ def run(ctx):
                     ctx.prop_fail('streaming decoder on an open stream holding a proper prefix: %s instead of underrun' % r['open'], m)
                 if r['closed'] != 'EEndOfStream':
                     ctx.prop_fail('streaming decoder on a stream closed at the cut: %s instead of the end-of-stream error' % r['closed'], m)
+                for key in [x for x in r if x.startswith('polled-then-closed')]:
+                    if r[key] != 'EEndOfStream':
+                        ctx.prop_fail('streaming decoder on a stream polled while open and then closed at the cut (%s): %s instead of the end-of-stream error' % (key.split(':', 1)[1], r[key]), m)
+                        break
                 if k > 0 and r['open-bytesio'] != 'under':
                     ctx.prop_fail('streaming decoder on an open BytesIO-derived stream holding a proper prefix: %s instead of underrun' % r['open-bytesio'], m)
                 if k > 0 and r['closed-bytesio'] != 'EEndOfStream':
